@@ -258,7 +258,28 @@ func lookupFunc(m *Module, p *packages.Package, name string) *FuncInfo {
 		return f
 	}
 	// consistently renamed? (see anchors.go)
-	return renamedFunc(m, p, name)
+	if f := renamedFunc(m, p, name); f != nil {
+		return f
+	}
+	// a method of a renamed type: T.m / (*T).m with T resolved through the type fall-back
+	recvName, meth := "", ""
+	if strings.HasPrefix(name, "(*") {
+		if i := strings.Index(name, ")."); i > 0 {
+			recvName, meth = name[2:i], name[i+2:]
+		}
+	} else if i := strings.Index(name, "."); i > 0 {
+		recvName, meth = name[:i], name[i+1:]
+	}
+	if recvName != "" {
+		if n := lookupType(p, recvName); n != nil && n.Obj().Name() != recvName {
+			for _, cand := range []string{n.Obj().Name() + "." + meth, "(*" + n.Obj().Name() + ")." + meth} {
+				if f := fs[cand]; f != nil {
+					return f
+				}
+			}
+		}
+	}
+	return nil
 }
 
 // lookupType returns the named type declared in the package, or nil.
